@@ -179,7 +179,7 @@ impl<K: Ord + Clone, V: Clone> BPlusTreeMap<K, V> {
                     }
 
                     // Check minimum occupancy
-                    if !leaf.keys_is_empty() && leaf.is_underfull() {
+                    if leaf.is_underfull() {
                         // For root nodes, allow fewer keys only if it's the only node
                         if _is_root {
                             // Root leaf can have any number of keys >= 1
@@ -234,7 +234,7 @@ impl<K: Ord + Clone, V: Clone> BPlusTreeMap<K, V> {
                     }
 
                     // Check minimum occupancy
-                    if !branch.keys.is_empty() && branch.is_underfull() {
+                    if branch.is_underfull() {
                         if _is_root {
                             // Root branch can have any number of keys >= 1 (as long as it has children)
                             // The only requirement is that keys.len() + 1 == children.len()
